@@ -20,7 +20,7 @@ _tree_assume = [
 ]
 reg(Prop('C12', 'exploration', [
     Sub('exh', 'tree', shards=(8, 16), cases=(1, 1), env={'VERIF_SUB': 'exh'}),
-    Sub('rand', 'tree', shards=(8, 16), cases=(400, 6000), maxsize=(120, 400), env={'VERIF_SUB': 'rand'}),
+    Sub('rand', 'tree', shards=(8, 16), cases=(1500, 8000), maxsize=(120, 400), env={'VERIF_SUB': 'rand'}),
 ], rule='bounded-exhaustive: all insertion orders of n<=6 (thorough 7) keys x all removal orders for n<=5 (6), all op sequences of '
         'length<=5 (6) over 3 keys, for each tree type; random: rapidcheck sequences of insert/remove/lookup/foreach(stop)/clear/bulk ops '
         'over universes of 3, 8, 64, 5000 keys, 3 comparators, 3 constructors. Oracle: std::map under the same order, full scan after every '
@@ -36,7 +36,7 @@ reg(Prop('C13', 'exploration', [
     assumptions=_tree_assume, corpus_harness='tree', design_ref='4/C13'))
 reg(Prop('C14', 'exploration', [
     Sub('exh', 'tree', shards=(8, 16), cases=(1, 1), env={'VERIF_SUB': 'exh'}),
-    Sub('rand', 'tree', shards=(8, 16), cases=(400, 6000), maxsize=(120, 400), env={'VERIF_SUB': 'rand'}),
+    Sub('rand', 'tree', shards=(8, 16), cases=(1500, 8000), maxsize=(120, 400), env={'VERIF_SUB': 'rand'}),
 ], rule='C12 command sequences on trees with key+value, key-only, value-only and no notifiers; keys/values are tagged heap objects freed by the notifier '
         '(ASan sees any later use). Oracle: per command, the set of (id, kind) passed to notifiers equals the set the model says left the tree; never twice; '
         'objects without notifier untouched. Non-trivial = >=1 two-child removal followed by a command touching the tree and >=1 replace.',
@@ -67,7 +67,7 @@ TECHNIQUE = {
 # ---- C15 ---------------------------------------------------------------------------------------
 harness('htlist', 'engines/seq/htlist.cpp', 'gcc-asan')
 reg(Prop('C15', 'exploration', [
-    Sub('rand', 'htlist', shards=(16, 16), cases=(1500, 40000), maxsize=(150, 400)),
+    Sub('rand', 'htlist', shards=(16, 16), cases=(8000, 80000), maxsize=(150, 400)),
 ], rule='rapidcheck op sequences on PHashTable (insert/overwrite/remove/lookup/keys/values/lookup_by_value/free) and PList (append/prepend/remove/reverse/last/length/foreach/free); '
         'keys and values are pointer-sized bit patterns from 10 classes (NULL, all-ones, small, negative, low word INT_MAX-40..INT_MAX, high-word-only differences, '
         'same-bucket families base+101*j, random 64-bit, INT_MAX-adjacent with high word, INT_MIN/UINT_MAX-adjacent). Oracle: std::map / std::vector, listings compared as multisets, '
@@ -86,7 +86,7 @@ TECHNIQUE['C15'] = 'property-based testing (rapidcheck, model-based) under UBSan
 harness('sockaddr', 'engines/seq/sockaddr.cpp', 'gcc-asan')
 reg(Prop('C17', 'exploration', [
     Sub('grid', 'sockaddr', shards=(4, 8), cases=(1, 1), env={'VERIF_SUB': 'grid'}),
-    Sub('rand', 'sockaddr', shards=(12, 16), cases=(2500, 120000), maxsize=(100, 200), env={'VERIF_SUB': 'rand'}),
+    Sub('rand', 'sockaddr', shards=(12, 16), cases=(15000, 200000), maxsize=(100, 200), env={'VERIF_SUB': 'rand'}),
 ], rule='grid: 19 boundary IPv4 addresses x 6 ports x every native source length 0..36 x 6 destination lengths, and every IPv6 zero-run position x ports x lengths (exhaustive for that grid); '
         'random: native sockaddr_in/in6 images (boundary-biased octets, structured IPv6 incl. mapped/compatible/link-local/multicast, full-range flow/scope, foreign families, '
         'exact-size heap buffers of every length), strings (inet_ntop outputs, upper-case/uncompressed/embedded-v4/%scope variants, near-misses, single-character mutations, junk), new_any/new_loopback. '
@@ -185,14 +185,14 @@ def _dsubs(configs, quick_cases, thorough_cases, exh=True):
         subs.append(Sub('rand_' + cfg, h, shards=(3, 6), cases=(quick_cases, thorough_cases), maxsize=(60, 100), env={'VERIF_SUB': 'rand'}, timeout=(900, 3600)))
     return subs
 
-reg(Prop('C01', 'exploration', _dsubs(['c11_posix', 'sync_posix', 'sim_posix'], 400, 8000),
+reg(Prop('C01', 'exploration', _dsubs(['c11_posix', 'sync_posix', 'sim_posix'], 2000, 20000),
     rule='lock programs: 2-4 threads x rounds of lock / trylock / unlock (one nesting level via trylock) over 1-3 locks of kind mutex|spinlock, generated with a schedule vector; executed under the deterministic scheduler for each '
          'atomic/spinlock model (c11, sync, sim). Bounded-exhaustive sub-run: every schedule with <= 2 (thorough 3) preemptions in the first 28 (40) points of 4 shaped programs. Oracle: shadow holder count never > 1 (checked at every schedule point), '
          'non-atomic protected record (counter + checksum) consistent inside every section and counter == sections executed, trylock FALSE only if the lock was held or contended during the call, TRUE never while held, no deadlock. '
          'Non-trivial = some acquisition found the lock held or contended and >= 2 threads executed sections on one lock; distinct = distinct executed trace (thread switch sequence) hash.',
     assumptions=_dsched_assume + ['the visibility clause is decided here only as far as a sequentially consistent execution can show it (lost/torn updates); weak-memory effects need the real-thread TSan runs'],
     corpus_harness='dsched_c11_posix', design_ref='4/C01, 3.1'))
-reg(Prop('C02', 'exploration', _dsubs(['c11_general', 'c11_posix', 'sim_general'], 500, 10000),
+reg(Prop('C02', 'exploration', _dsubs(['c11_general', 'c11_posix', 'sim_general'], 2500, 25000),
     rule='rw programs: 2-4 threads x rounds of reader/writer lock|trylock + unlock over 1-2 rwlocks, optional rendezvous barrier inside read sections (only on locks without writers), schedule vector with optional spurious condition-variable wake-ups; '
          'both implementations (general mutex+condvar model, native pthread model with a permissive grant rule). Bounded-exhaustive sub-run over 6 shaped programs. Oracle: shadow (readers, writers) invariant at every schedule point, trylock TRUE only when grantable and TRUE on a free uncontended lock, '
          'trylock never parks, protected record consistent, every program terminates (deadlock = enabled set empty is exact). Non-trivial = reader and writer rounds on one lock and >= 1 thread actually waited inside a lock call; distinct = distinct executed trace hash.',
@@ -203,13 +203,13 @@ reg(Prop('C03', 'exploration', _dsubs(['c11_posix'], 1200, 20000),
          'Oracle: the model rejects a wait whose mutex argument is not the caller-held native mutex; wait releases+parks atomically and returns with the mutex held (shadow section holder); consumed multiset == produced, per-producer order; all threads terminate. '
          'Non-trivial = >= 2 threads waiting on one condition variable at once and >= 1 wake-up issued while waiters exist; distinct = distinct executed trace hash.',
     assumptions=_dsched_assume, corpus_harness='dsched_c11_posix', design_ref='4/C03, 3.1'))
-reg(Prop('C04', 'exploration', _dsubs(['c11_posix', 'sync_posix', 'sim_posix'], 500, 10000),
+reg(Prop('C04', 'exploration', _dsubs(['c11_posix', 'sync_posix', 'sim_posix'], 2000, 20000),
     rule='atomic histories: 2-3 threads x up to 4 operations (inc, dec_and_test, add, and, or, xor, compare_and_exchange, get, set; int and pointer width; operands from sign/wrap boundaries) on one shared word, schedule vector; for each atomic model. '
          'Oracle: exact linearizability - a search for a sequential order (respecting program order) in which every returned value, every dec_and_test/CAS result and the final value follow 32-bit / pointer-width wrapping C arithmetic. '
          'Non-trivial = >= 2 threads and >= 1 preemption inside the history; distinct = distinct executed trace hash.',
     assumptions=_dsched_assume + ['lock-free bodies (c11, sync) are single instructions between schedule points: splitting one inside a basic block is visible only to the real-thread stress sub-checks'],
     corpus_harness='dsched_c11_posix', design_ref='4/C04, 3.1'))
-reg(Prop('C05', 'exploration', _dsubs(['sim_posix', 'c11_posix'], 500, 10000),
+reg(Prop('C05', 'exploration', _dsubs(['sim_posix', 'c11_posix'], 3000, 30000),
     rule='thread programs: main creates 1-3 threads (joinable|detached, NULL/short/long name, return or p_uthread_exit(code) with boundary codes) whose bodies do TLS set/replace/get on 1-3 keys (with/without notifier), current(), ref/unref, yield; '
          'main does ref/unref/join in generated order consistent with the ownership model; schedule vector over every atomic operation (sim model: each atomic is a mutex-protected step). '
          'Oracle: join returns only after the body finished, with the exit code, and sees the thread\'s plain write; notifier exactly once for replaced values and values left at exit, never for set_local, never for another thread\'s value; get returns the caller\'s value; no deadlock. '
@@ -233,7 +233,7 @@ def _rtsubs(kinds, qcases, tcases):
         subs.append(Sub('rt_' + cfg, 'rt_' + cfg, shards=(1, 2), cases=(qcases, tcases), maxsize=(100, 100), kind='stress',
                         env={'VERIF_KINDS': kinds + (',sbset,sbget' if (not tsan and 'sb' in kinds.split(',')) else ''), 'VERIF_CONFIG_TSAN': tsan}, timeout=(900, 3600)))
     return subs
-PROPS['C01'].subs += _rtsubs('lockrec,lockrec,trylockrec', 20, 300)
+PROPS['C01'].subs += _rtsubs('lockrec,lockrec,trylockrec', 60, 600)
 PROPS['C04'].subs += _rtsubs('ticket,ticket,countdown,zerorace,zerorace,casloop,mix,mp,sb', 30, 300)
 PROPS['C01'].rule += ' Real-thread sub-checks: generated (threads 2-8, rounds, lock kind, noise seed) lock programs on real threads, under ThreadSanitizer for the c11 and sim models (any race report on the protected record is a violation - this is the visibility clause) and with outcome oracles only on plain -O2 builds of c11, sync, sim.'
 PROPS['C04'].rule += ' Real-thread sub-checks: ticket uniqueness (add), countdown (dec_and_test TRUE exactly once), zero-race rounds (all threads decrement a word set to the thread count, tightly synchronised, exactly one TRUE per round), CAS increment loop, or/xor/and/inc mixes, message-passing and store-buffering litmus with iteration counts; TSan on c11/sim, outcome oracles on plain c11/sync/sim.'
@@ -244,7 +244,7 @@ ENGINES.append(dict(name='rthreads', path='engines/rthreads', serves_properties=
 # ---- C20 ---------------------------------------------------------------------------------------
 harness('census', 'engines/fault/census.cpp', 'gcc-asan', libs='-lrapidcheck -lcrypto')
 reg(Prop('C20', 'exploration', [
-    Sub('rand', 'census', shards=(12, 16), cases=(60, 1500), maxsize=(100, 100), env={'VERIF_SUB': 'rand'}, timeout=(900, 3600)),
+    Sub('rand', 'census', shards=(12, 16), cases=(250, 3000), maxsize=(100, 100), env={'VERIF_SUB': 'rand'}, timeout=(900, 3600)),
     Sub('cycles', 'census', shards=(4, 8), cases=(1, 1), env={'VERIF_SUB': 'cycles'}, timeout=(900, 3600)),
 ], rule='lifecycle histories: sequences of up to ~14 self-contained episodes over 17 object kinds (trees, list+hash table, INI incl. missing file, hashes, errors, directory iterator incl. missing path, TCP pairs incl. refused connect / timed-out accept / timed-out receive / I/O after close, '
         'UDP incl. receive_from and timed-out receive, socket addresses incl. rejected strings, semaphores with 1-3 handles and owner/non-owner free orders, shm with second handles of equal/smaller/larger size argument and read-only mode, shm buffers incl. failing open on a too-small segment, '
@@ -265,7 +265,7 @@ TECHNIQUE['C20'] = 'property-based testing (rapidcheck) of lifecycle histories w
 harness('shmbuf', 'engines/seq/shmbuf.cpp', 'gcc-asan')
 reg(Prop('C08', 'exploration', [
     Sub('exh', 'shmbuf', shards=(2, 8), cases=(1, 1), env={'VERIF_SUB': 'exh'}),
-    Sub('rand', 'shmbuf', shards=(8, 16), cases=(500, 15000), maxsize=(80, 200), env={'VERIF_SUB': 'rand'}),
+    Sub('rand', 'shmbuf', shards=(8, 16), cases=(4000, 40000), maxsize=(80, 200), env={'VERIF_SUB': 'rand'}),
 ], rule='sequences of write/read/clear/space queries through up to 5 handles of one name (opened with equal, zero, smaller and larger size arguments, followers closed and re-opened), capacities 1,2,3,7,8,64,1024,4079,8175 (segment ends exactly at a page boundary) and random <= 5000; '
         'lengths generated relative to the model state (free-1, free, free+1, capacity, capacity+1, used-1, used, used+1, 0). Exhaustive sub-run: every op sequence of length <= 4 (thorough 6) over capacities 1..3 with lengths 1..S+1. '
         'Oracle: bounded FIFO byte queue shared by all handles: return values, exact bytes in order, used + free == capacity through every handle after every operation; caller buffers are exact-size heap blocks (ASan). '
@@ -284,8 +284,8 @@ _ipc_assume = ["IPC names are private to the run (prefix with the coordinator pi
                'blocking is decided one-sidedly: "must block" = no reply within the grace period (150 ms quick / 400 ms thorough); a worker that does not answer within 10 s makes the case inconclusive',
                'crash points are before/after each IPC libc call made by the library objects (sem_open, sem_close, sem_unlink, sem_wait, sem_post, shm_open, shm_unlink, ftruncate, mmap, munmap, close), interposed with objcopy --redefine-syms']
 reg(Prop('C06', 'exploration', [
-    Sub('hist', 'ipcx', shards=(8, 16), cases=(120, 1500), maxsize=(60, 100), env={'VERIF_SUB': 'hist'}, timeout=(900, 3600)),
-    Sub('kills', 'ipcx', shards=(4, 8), cases=(80, 1000), maxsize=(60, 100), env={'VERIF_SUB': 'kills'}, timeout=(900, 3600)),
+    Sub('hist', 'ipcx', shards=(8, 16), cases=(400, 3000), maxsize=(60, 100), env={'VERIF_SUB': 'hist'}, timeout=(900, 3600)),
+    Sub('kills', 'ipcx', shards=(4, 8), cases=(250, 2000), maxsize=(60, 100), env={'VERIF_SUB': 'kills'}, timeout=(900, 3600)),
     Sub('enum', 'ipcx', shards=(4, 4), cases=(1, 1), env={'VERIF_SUB': 'enum'}, timeout=(900, 3600)),
 ], rule='histories of new(OPEN|CREATE, init 0,1,2,3,7)/acquire/release/take_ownership/free over 3 names and handle slots spread over 3-4 worker processes, interpreted model-driven (acquire on an empty counter becomes "must block, then complete after a release through another handle"), '
         'k-exclusion phases (W processes x rounds on a counter v < W), SIGKILL of a worker at a generated point of new/acquire/free followed by the documented clean-up from another process; enum sub-run: every kill point of new (OPEN|CREATE x absent|existing name), free (owner|non-owner) and acquire. '
@@ -293,15 +293,15 @@ reg(Prop('C06', 'exploration', [
         'Non-trivial = >= 2 handles of one generation in >= 2 processes and a new on an existing name and an operation through a handle other than the one that last changed the counter, or a kill; distinct = distinct history text.',
     assumptions=_ipc_assume, corpus_harness='ipcx', design_ref='4/C06, 3.2'))
 reg(Prop('C07', 'exploration', [
-    Sub('hist', 'ipcx', shards=(8, 16), cases=(120, 1500), maxsize=(60, 100), env={'VERIF_SUB': 'hist'}, timeout=(900, 3600)),
-    Sub('kills', 'ipcx', shards=(4, 8), cases=(80, 1000), maxsize=(60, 100), env={'VERIF_SUB': 'kills'}, timeout=(900, 3600)),
+    Sub('hist', 'ipcx', shards=(8, 16), cases=(400, 3000), maxsize=(60, 100), env={'VERIF_SUB': 'hist'}, timeout=(900, 3600)),
+    Sub('kills', 'ipcx', shards=(4, 8), cases=(250, 2000), maxsize=(60, 100), env={'VERIF_SUB': 'kills'}, timeout=(900, 3600)),
     Sub('enum', 'ipcx', shards=(4, 4), cases=(1, 1), env={'VERIF_SUB': 'enum'}, timeout=(900, 3600)),
 ], rule='histories of new(size from 1,7,100,4095,4096,4097,8192,65537; read-only followers)/store/load (offsets 0, size-1, page edge)/lock/unlock/take_ownership/free over 2 names and 3 processes, lock phases (N processes x M rounds of lock; non-atomic counter++ in the segment; unlock), '
         'first-use races (a second process runs its whole p_shm_new while the creator is parked at a generated point of its own), SIGKILL inside new/lock with documented clean-up; enum sub-run: every kill point of p_shm_new (absent|existing) and every pause point of the race x 3 sizes. '
         'Oracle: byte-array model per generation read back through every handle; creator size exact, equal size arguments report equal sizes, never above the segment; every byte below the reported size accessible; lock must block across processes and the in-segment counter must not lose updates; '
         'owner free removes segment and lock names; clean-up after a kill yields a fresh zeroed segment of the new size with a working lock. Non-trivial = a byte stored by one process loaded by another, a race with both creators alive, or a kill; distinct = distinct history text.',
     assumptions=_ipc_assume, corpus_harness='ipcx', design_ref='4/C07, 3.2'))
-PROPS['C08'].subs += [Sub('mp', 'ipcx', shards=(6, 12), cases=(100, 1500), maxsize=(60, 100), env={'VERIF_SUB': 'hist'}, timeout=(900, 3600))]
+PROPS['C08'].subs += [Sub('mp', 'ipcx', shards=(6, 12), cases=(400, 3000), maxsize=(60, 100), env={'VERIF_SUB': 'hist'}, timeout=(900, 3600))]
 PROPS['C08'].rule += ' Multi-process layer: the same operations spread over handles in 3 worker processes against one FIFO model in the coordinator, plus concurrent producer/consumer phases moving sequence-numbered frames (whole frames, per-producer order).'
 ENGINES.append(dict(name='ipcx', path='engines/ipcx', serves_properties=['C06', 'C07', 'C08'], kind_free_text='multi-process step executor: generated histories, reference model in the coordinator, kill/pause points on interposed IPC libc calls'))
 LEVEL_TEXT['C06'] = 'Model-based multi-process histories with counter observation after every step, blocking probes, k-exclusion phases and SIGKILL at every IPC call boundary (enumerated) followed by the documented clean-up.'
@@ -317,7 +317,7 @@ _net_assume = ['faults are injected by link-time wrappers around the libc calls 
                'the peer endpoint is a raw BSD socket driven by a harness thread and is not wrapped; loopback only, ephemeral ports',
                'UDP loss or lateness is tolerated and counted, never a violation; only lower bounds on elapsed time are asserted']
 reg(Prop('C09', 'fault_enumeration', [
-    Sub('rand', 'netx', shards=(12, 16), cases=(40, 1500), maxsize=(60, 100), env={'VERIF_SUB': 'rand'}, timeout=(900, 3600)),
+    Sub('rand', 'netx', shards=(12, 16), cases=(250, 3000), maxsize=(60, 100), env={'VERIF_SUB': 'rand'}, timeout=(900, 3600)),
     Sub('enum', 'netx', shards=(4, 8), cases=(1, 1), env={'VERIF_SUB': 'enum'}, timeout=(900, 3600)),
 ], rule='transfer cases: IPv4/IPv6 loopback, TCP (library as client or as accepting server) and UDP, blocking and non-blocking, optional small send buffer, peer behaviour fast/slow/burst, sequences of send(len)/receive(buflen)/peer-sends with sizes from 1, 2, 1023, 1024, 4096, 65507, 70000, 1 MiB and random, '
         '"peer goes away then keep writing", plus a generated fault plan (call, k-th invocation, EINTR|EAGAIN|SHORT(n), burst 1-5) over send, recv, sendto, recvfrom, poll, connect, accept. enum sub-run: every single-fault plan (call x k<=6 x fault) on three base transfers. '
@@ -326,7 +326,7 @@ reg(Prop('C09', 'fault_enumeration', [
         'Non-trivial = a short transfer or an injected fault consumed inside a blocking call, and >= 2 receives; distinct = distinct case text.',
     assumptions=_net_assume, corpus_harness='netx', design_ref='4/C09, 3.3'))
 reg(Prop('C10', 'exploration', [
-    Sub('rand', 'netx', shards=(16, 16), cases=(250, 3000), maxsize=(60, 100), env={'VERIF_SUB': 'rand'}, timeout=(900, 3600)),
+    Sub('rand', 'netx', shards=(16, 16), cases=(1500, 12000), maxsize=(60, 100), env={'VERIF_SUB': 'rand'}, timeout=(900, 3600)),
 ], rule='state-machine sequences over 3 library sockets (stream/datagram, IPv4/IPv6) and raw peers created on demand: new, bind, listen, connect (listening port | closed port | non-blocking), accept (with / without a pending peer), send, receive (with / without data), shutdown, close, close again, every I/O call after close, '
         'setters blocking / timeout {-5,0,1,3,20,50} / keepalive / backlog before and after listen, getters after every command. Oracle: reference state machine for the getters; after close every I/O call fails with not-available and the wrappers see zero system calls; second close TRUE with zero calls; '
         'blocked calls that cannot proceed fail with timed-out not before T (monotonic clock, lower bound only); non-blocking ones with would-block (connect: in-progress) without calling poll; FD_CLOEXEC on new and accepted descriptors. '
@@ -334,7 +334,7 @@ reg(Prop('C10', 'exploration', [
     assumptions=_net_assume + ['keepalive setter after close is not asserted (unspecified)'], corpus_harness='netx', design_ref='4/C10'))
 reg(Prop('C19', 'fault_enumeration', [
     Sub('enum', 'netx', shards=(8, 8), cases=(1, 1), env={'VERIF_SUB': 'enum'}, timeout=(900, 3600)),
-    Sub('rand', 'netx', shards=(8, 16), cases=(25, 600), maxsize=(60, 100), env={'VERIF_SUB': 'rand'}, timeout=(900, 3600)),
+    Sub('rand', 'netx', shards=(8, 16), cases=(150, 1500), maxsize=(60, 100), env={'VERIF_SUB': 'rand'}, timeout=(900, 3600)),
 ], rule='call scenarios per blocking call site: p_uthread_sleep(1|20|60 ms); semaphore acquire / shm lock released by a helper thread after a delay; p_semaphore_new / p_shm_new (create and open); blocking TCP transfer (connect, accept, receive, send into a slow reader); accept and receive waiting for a late peer - '
         'combined with (a) a signal storm (POSIX timer aimed at the calling thread, handler without SA_RESTART, period 200 us - 20 ms) and (b) an EINTR plan on the libc call the scenario blocks in. enum sub-run: EINTR at invocation k<=5 (burst 1|3) of every blocking call site, and every site x 5 storm periods. '
         'Oracle: outcome equals the signal-free outcome: sleep returns 0 only after >= the requested time; acquire/lock return TRUE, not before the unit was released, exactly one unit consumed; objects created and usable; socket data intact (C09 stream oracle); never an interrupted-call error. '
